@@ -320,7 +320,8 @@ def run_receiver_case(rng, budget=60, adversarial=False, edge=False):
     """-> dict(cfg, items=[(lit, outs, digest, raw)], returns=[...], prov)"""
     cfg = gen_recv_config(rng)
     if edge:
-        cfg = dict(balance=False, low_latency=rng.random() < 0.3, srcs=[dict(eph=0, mode=None if edge is True else [tuple(x) for x in edge])])
+        cfg = dict(balance=False, low_latency=rng.random() < 0.3,
+                   srcs=[dict(eph=0, mode=None if edge is True else [('*', '*')] if edge == '*' else [tuple(x) for x in edge])])
     groups = None
     w = RecvWorld(rng, len(cfg['srcs']), budget, adversarial)
     returns = []
@@ -335,7 +336,7 @@ def run_receiver_case(rng, budget=60, adversarial=False, edge=False):
         # unique ids are random strings; nothing to canonicalise beyond the source index
         w.recv = r
         if edge:
-            groups = gen_streams_edge(rng, w, None if edge is True else [a for a, _ in edge])
+            groups = gen_streams_edge(rng, w, None if edge is True or edge == '*' else [a for a, _ in edge])
         else:
             gen_streams(rng, w, cfg, adversarial)
         next_state = None
@@ -1024,6 +1025,29 @@ def edge_cases(run, n):
     run.model_disagree('edge', EDGE_IMPORTS, 'run_edge', EDGE_TYPE, cases, shard=60)
     if cases:
         run.samples.append(dict(family='edge', groups=cases[0][2]['groups'], first_items=cases[0][2]['script'][:8]))
+
+
+def edgeS_cases(run, n):
+    """'addr;*' (C03_edge_lossless_everything): every published topic, hidden ones included"""
+    rng = run.rng
+    cases = []
+    for k in range(n):
+        c = run_receiver_case(rng, budget=rng.choice([40, 80, 140]), edge='*')
+        pub = [[mid, [[t, p] for t, p in parts]] for (mid, _sid), parts in c['groups']]
+        got = [[x['ret']['id'], [[t, p] for t, p in x['ret']['data'].items()]] for x in c['calls'] if x.get('ret')]
+        summary = dict(cfg=c['cfg'], groups=pub, script=[it[3] for it in c['items']])
+        if got != pub[:len(got)]:
+            j = next((i for i in range(len(got)) if i >= len(pub) or got[i] != pub[i]), len(pub))
+            run.violation('edgeS:%s at=%d' % ('lost-first' if j == 0 else 'not-a-prefix', j), "subscription '*': the consumer was handed %s, the publisher sent %s" % (got[:j + 1][-2:], pub[:j + 1][-2:]), summary)
+        elif c['drained'] and len(got) != len(pub):
+            run.violation('edgeS:dropped %d of %d' % (len(pub) - len(got), len(pub)), 'everything was delivered and read but only %d of %d frames were handed over' % (len(got), len(pub)), summary)
+        run.count('edgeS:cases')
+        run.count('edgeS:frames-returned', len(got))
+        run.seen(('es', recv_case_lit(c)), nontrivial=bool(got))
+        gl = listl(pairl(pairl(zl(mid), zl(sid)), listl(pairl(strl(t), zl(p)) for t, p in parts)) for (mid, sid), parts in c['groups'])
+        lit = pairl(pairl(gl, booll(c['cfg']['low_latency'])), listl(it[0] for it in c['items']))
+        cases.append((lit, [True, got, pub], summary))
+    run.model_disagree('edgeS', EDGEX_IMPORTS, 'run_edgeS', EDGE_TYPE, cases, shard=60)
 
 
 EDGEX_IMPORTS = 'From OF Require Import Proto.Wire Proto.Receiver Proto.Edge Proto.EdgeG Proto.Edge_Inst.'
